@@ -410,6 +410,7 @@ type readCfg struct {
 	FullFile  bool
 	Codec     int // transport stage: 0 plain, 1 gzip, 2 bzip2, 3 xz, 4 zstd
 	ErrAt     int // -1 none
+	ErrStyle  int // see simrt.SimReader.ErrStyle
 	IOSeed    uint64
 }
 
@@ -417,8 +418,8 @@ type readCfg struct {
 var codecNames = []string{"plain", "gzip", "bzip2", "xz", "zstd", "gzip"}
 
 func (c readCfg) String() string {
-	return fmt.Sprintf("stage=%d B=%d workers=%d readmode=%d zero=%v eofdata=%v parsed=%v fullfile=%v codec=%s pool-churn=%d",
-		c.Stage, c.Chunk, c.Workers, c.ReadMode, c.ZeroReads, c.EOFData, c.Parsed, c.FullFile, codecNames[c.Codec], c.Churn)
+	return fmt.Sprintf("stage=%d B=%d workers=%d readmode=%d zero=%v eofdata=%v parsed=%v fullfile=%v codec=%s pool-churn=%d errstyle=%d",
+		c.Stage, c.Chunk, c.Workers, c.ReadMode, c.ZeroReads, c.EOFData, c.Parsed, c.FullFile, codecNames[c.Codec], c.Churn, c.ErrStyle)
 }
 
 type delivered struct {
@@ -486,6 +487,7 @@ func readFile(rc *RunCtx, format int, data []byte, cfg readCfg) *readResult {
 	// their own goroutines, which must not interleave draws with the scheduler's tape
 	rd := simrt.NewSimReader(data, simrt.NewTape(cfg.IOSeed))
 	rd.Mode, rd.ZeroReads, rd.EOFWithData, rd.ErrAt = cfg.ReadMode, cfg.ZeroReads, cfg.EOFData, cfg.ErrAt
+	rd.ErrStyle = cfg.ErrStyle
 	rr.reader = rd
 	var collected []delivered
 	collect := func(it obiiter.IBioSequence) {
@@ -1100,7 +1102,13 @@ func c17Cases(tier string) []c17case {
 			}
 		}
 		for k := 0; k <= n; k++ {
-			out = append(out, c17case{i, fkReadErr, k, 0})
+			// bit = the style of the error: alone, or in the same Read as the last bytes; lasting
+			// in both.  Style 2 of the endpoint (reported once, then a clean end) is not drawn:
+			// the decoders and files behind the property keep their error, and the codec
+			// sniffing of the unchanged tree (bufio Peek) forgets a once-only error by design
+			for st := 0; st < 2; st++ {
+				out = append(out, c17case{i, fkReadErr, k, st})
+			}
 		}
 	}
 	c17CaseCache[tier] = out
@@ -1221,6 +1229,8 @@ func runC17(rc *RunCtx) {
 			k = n
 		}
 		cfg.ErrAt = k
+		cfg.ErrStyle = bit % 2
+		rc.Probe(fmt.Sprintf("read_error_style_%d", cfg.ErrStyle))
 	}
 	format := fc.Shape.Format
 	codecName := codecNames[codec]
